@@ -1148,6 +1148,19 @@ impl<'a> Exec<'a> {
                             return Ok(StepInfo::default());
                         }
                         let k = inst!().k(*ks).unwrap().clone();
+                        // the options in force right after creation are the requested ones
+                        // (whatever else - a compaction filter factory - is attached on the way)
+                        let requested = fjall::verif::create_options_rows(&crate::inst::make_opts(&opts), k.id());
+                        let live = fjall::verif::keyspace_option_rows(&k);
+                        if requested != live {
+                            let diff: Vec<String> = requested
+                                .iter()
+                                .zip(live.iter())
+                                .filter(|(a, b)| a != b)
+                                .map(|(a, b)| format!("{}: requested {:?} in force {:?}", show(&a.0[9.min(a.0.len())..]), a.1, b.1))
+                                .collect();
+                            viol!("options-in-force", "keyspace {:?} was created with options that are not the requested ones: {}", cfg.names[*ks as usize], diff.join("; "));
+                        }
                         self.created_rows
                             .insert(*ks, fjall::verif::keyspace_option_rows(&k));
                         // a new incarnation
@@ -1277,6 +1290,35 @@ impl<'a> Exec<'a> {
                 // with real worker threads the directory legitimately changes underneath us
                 if before != after && self.cfg.workers == 0 {
                     viol!("single-instance", "refused second open modified the directory");
+                }
+                Ok(StepInfo::default())
+            }
+            Op::CheckFiltered => {
+                // every keyspace has just been flushed completely and major-compacted with no view
+                // open: a filter that is in effect has seen every stored item, so no item with a
+                // remove / replace verdict is left in its original form ("is in effect for exactly
+                // that keyspace" - a filter that silently is NOT installed would pass the
+                // three-valued model for ever)
+                let filtered: Vec<KsIdx> = self.model.ks.keys().copied().filter(|k| self.is_filtered(*k)).collect();
+                for ks in filtered {
+                    let Some(k) = inst!().k(ks).cloned() else { continue };
+                    if k.sealed_memtable_count() > 0 {
+                        continue;
+                    }
+                    for g in k.iter() {
+                        let (key, v) = match g.into_inner() {
+                            Ok(x) => x,
+                            Err(e) => viol!("filter-model", "scan failed: {e:?}"),
+                        };
+                        match key.first().copied().unwrap_or(0) % 3 {
+                            1 => viol!("filter-not-applied", "keyspace {:?} has a compaction filter assigned, everything was flushed and major-compacted, but key {} (verdict: remove) is still there", cfg.names[ks as usize], show(&key)),
+                            2 if !v.starts_with(crate::inst::REPLACED_PREFIX) => {
+                                viol!("filter-not-applied", "keyspace {:?} has a compaction filter assigned, everything was flushed and major-compacted, but key {} (verdict: replace) still has its original value", cfg.names[ks as usize], show(&key))
+                            }
+                            _ => {}
+                        }
+                    }
+                    self.stats.inc("filter_applied_checks");
                 }
                 Ok(StepInfo::default())
             }
